@@ -1,14 +1,231 @@
 import Model.Util
 /-
-  Model/Heap.lean — (stub) executable model; see DESIGN.md.  Core Lean only.
+  Model/Heap.lean — object-identity model behind C01 / C07 (clone, checkpoint round trip,
+  independence of agents).
+
+  A heap is a list of cells (address = position, contents = an opaque value id).  An agent maps
+  each attribute number to the list of *mutable cells reachable through that attribute*
+  (parameter/ buffer storages of a network, moment and step tensors of an optimizer, the list
+  object and elements of `fitness`/`scores`/`steps`, the `RLParameter`s of the registry …).
+  `clone` follows the per-attribute rule table of `EvolvableAlgorithm.clone` +
+  `copy_attributes` (agilerl/algorithms/core/base.py):
+
+  * networks            — `module.clone()` : fresh storages holding equal values
+  * optimizers          — new `OptimizerWrapper` + `load_state_dict(deepcopy(state))` : fresh
+                          (`optByRef = true` models the unrepaired code, which loaded the parent's
+                          state dict without copying: the moment/step tensors stay shared)
+  * target networks of an algorithm whose hook re-synchronises them — fresh cells holding the
+    values of the *online* network (`resync src`)
+  * lists               — new list, elements deep-copied : fresh
+  * registry            — always deep-copied : fresh
+  * tensors / ndarrays / anything else that is a constructor argument — the constructor received
+    the parent's object by reference and `copy_attributes` leaves an equal value alone : by reference
+  * the same kinds when not a constructor argument — constructor default or deep copy : fresh
+  * immutable values have no mutable cell at all.
 -/
 namespace Heap
 open Util
 
+abbrev Addr := Nat  -- (documentation only; all signatures below spell out `Nat`)
+
+inductive Kind
+  | network | optimizer | target (src : Nat) | list | registry | tensor | ndarray | other | callable
+  | immutable
+deriving Repr, DecidableEq
+
+structure AttrSpec where
+  kind    : Kind
+  ctorArg : Bool
+deriving Repr, DecidableEq
+
+inductive Rule
+  | fresh | byRef | resync (src : Nat)
+deriving Repr, DecidableEq
+
+/-- the rule table of `clone` / `copy_attributes`; `optByRef` = unrepaired optimizer handling -/
+def ruleOf (optByRef : Bool) (a : AttrSpec) : Rule :=
+  match a.kind with
+  | .network => .fresh
+  | .optimizer => if optByRef then .byRef else .fresh
+  | .target src => .resync src
+  | .list => .fresh
+  | .registry => .fresh
+  | .immutable => .fresh
+  | .tensor | .ndarray | .other | .callable => if a.ctorArg then .byRef else .fresh
+
+abbrev Agent := List (List Nat)
+
+structure World where
+  heap   : List Nat
+  agents : List (Option Agent)      -- `none` = discarded
+  rules  : List Rule
+deriving Repr
+
+/-- contents of a list of cells -/
+def vals (h : List Nat) (cs : List Nat) : List Nat := cs.map (fun a => h.getD a 0)
+
+/-- allocate `vs.length` new cells holding `vs` -/
+def alloc (h : List Nat) (vs : List Nat) : List Nat × List Nat :=
+  (h ++ vs, (List.range vs.length).map (fun i => h.length + i))
+
+/-- the cells whose values the child's attribute is initialised from -/
+def srcOf (parent : Agent) (cs : List Nat) : Rule → List Nat
+  | .resync src => parent.getD src []
+  | _ => cs
+
+/-- clone the attributes one by one (left to right) following the rules -/
+def cloneAttrs (parent : Agent) : List Rule → List (List Nat) → List Nat → List Nat × Agent
+  | [], _, h => (h, [])
+  | _, [], h => (h, [])
+  | r :: rs, cs :: rest, h =>
+    if r = .byRef then
+      let rc := cloneAttrs parent rs rest h
+      (rc.1, cs :: rc.2)
+    else
+      let al := alloc h (vals h (srcOf parent cs r))
+      let rc := cloneAttrs parent rs rest al.1
+      (rc.1, al.2 :: rc.2)
+
+def World.clone (w : World) (i : Nat) : World :=
+  match w.agents[i]? with
+  | some (some p) =>
+    let rc := cloneAttrs p w.rules p w.heap
+    { w with heap := rc.1, agents := w.agents ++ [some rc.2] }
+  | _ => w
+
+/-- in-place write through agent `i`'s own reference to the `c`-th cell of attribute `k`
+    (learn step, list append, mutation noise) -/
+def World.write (w : World) (i k c v : Nat) : Option World :=
+  match w.agents[i]? with
+  | some (some ag) =>
+    match (ag.getD k [])[c]? with
+    | some a => some { w with heap := w.heap.set a v }
+    | none => none
+  | _ => none
+
+/-- the attribute is re-bound to newly created objects (network re-created by a mutation,
+    optimizer re-initialised, `agent.fitness = [...]`) -/
+def World.rebind (w : World) (i k : Nat) (vs : List Nat) : Option World :=
+  match w.agents[i]? with
+  | some (some ag) =>
+    if k < ag.length then
+      let al := alloc w.heap vs
+      some { w with heap := al.1, agents := w.agents.set i (some (ag.set k al.2)) }
+    else none
+  | _ => none
+
+def World.discard (w : World) (i : Nat) : World :=
+  { w with agents := w.agents.set i none }
+
+/-- attribute `k` owns `sizes[k]` consecutive cells starting at `base` -/
+def initAttrs : Nat → List Nat → Agent
+  | _, [] => []
+  | b, n :: ns => (List.range n).map (fun t => b + t) :: initAttrs (b + n) ns
+
+/-- a first agent whose attribute `k` owns `sizes[k]` fresh cells (cell `a` holds value `a+1`) -/
+def World.init (rules : List Rule) (sizes : List Nat) : World :=
+  { heap := (List.range sizes.sum).map (· + 1), agents := [some (initAttrs 0 sizes)], rules := rules }
+
+/-- what agent `j` can observe: the contents of every cell it reaches, attribute by attribute -/
+def view (w : World) (j : Nat) : Option (List (List Nat)) :=
+  match w.agents[j]? with
+  | some (some ag) => some (ag.map (vals w.heap))
+  | _ => none
+
+/-- pairs ((i,k),(j,l)), i < j, of attributes of two live agents that reach a common cell -/
+def aliasPairs (w : World) : List (Nat × Nat × Nat × Nat) :=
+  let live := (List.range w.agents.length).filterMap (fun i =>
+    match w.agents[i]? with
+    | some (some ag) => some (i, ag)
+    | _ => none)
+  live.flatMap fun (i, ai) =>
+    live.flatMap fun (j, aj) =>
+      if i < j then
+        (List.range ai.length).flatMap fun k =>
+          (List.range aj.length).filterMap fun l =>
+            if (ai.getD k []).any (fun a => (aj.getD l []).contains a) then some (i, k, j, l) else none
+      else []
+
+/-! ### line protocol -/
+
 structure IOState where
-  dummy : Nat := 0
+  w : World := { heap := [], agents := [], rules := [] }
+  optByRef : Bool := false
+
+def parseSpec (s : String) : Option AttrSpec :=
+  -- `<kind>[:c]`, kinds: net opt tgt<src> list reg ten nda oth cal imm
+  let (base, ctor) := match s.splitOn ":" with
+    | [b, "c"] => (b, true)
+    | [b] => (b, false)
+    | _ => ("?", false)
+  let mk := fun k => some { kind := k, ctorArg := ctor : AttrSpec }
+  if base = "net" then mk .network
+  else if base = "opt" then mk .optimizer
+  else if base = "list" then mk .list
+  else if base = "reg" then mk .registry
+  else if base = "ten" then mk .tensor
+  else if base = "nda" then mk .ndarray
+  else if base = "oth" then mk .other
+  else if base = "cal" then mk .callable
+  else if base = "imm" then mk .immutable
+  else if base.startsWith "tgt" then
+    match parseNat? (base.drop 3).toString with
+    | some n => mk (.target n)
+    | none => none
+  else none
+
+def showView : Option (List (List Nat)) → String
+  | none => "dead"
+  | some v => " | ".intercalate (v.map showNats)
+
+def showPairs (l : List (Nat × Nat × Nat × Nat)) : String :=
+  " ".intercalate (l.map fun (i, k, j, m) => s!"{i}.{k}={j}.{m}")
 
 def step (s : IOState) : List String → IOState × String
+  | ["mode", m] => if m = "repaired" then ({ s with optByRef := false }, "ok")
+                   else if m = "unrepaired" then ({ s with optByRef := true }, "ok") else (s, "bad-op")
+  | "new" :: rest =>
+    -- new <spec_0> … <spec_{n-1}> / <size_0> … <size_{n-1}>
+    let specs := rest.takeWhile (fun t => t != "/")
+    let sizes := (rest.dropWhile (fun t => t != "/")).drop 1
+    match allSome (specs.map parseSpec), parseNats? sizes with
+    | some sp, some sz =>
+      if sp.length = sz.length then
+        ({ s with w := World.init (sp.map (ruleOf s.optByRef)) sz }, "ok")
+      else (s, "bad-op")
+    | _, _ => (s, "bad-op")
+  | ["clone", i] =>
+    match parseNat? i with
+    | some i =>
+      match s.w.agents[i]? with
+      | some (some _) => ({ s with w := s.w.clone i }, toString s.w.agents.length)
+      | _ => (s, "reject")
+    | none => (s, "bad-op")
+  | ["write", i, k, c, v] =>
+    match parseNat? i, parseNat? k, parseNat? c, parseNat? v with
+    | some i, some k, some c, some v =>
+      match s.w.write i k c v with
+      | some w' => ({ s with w := w' }, "ok")
+      | none => (s, "reject")
+    | _, _, _, _ => (s, "bad-op")
+  | "rebind" :: i :: k :: vs =>
+    match parseNat? i, parseNat? k, parseNats? vs with
+    | some i, some k, some vs =>
+      match s.w.rebind i k vs with
+      | some w' => ({ s with w := w' }, "ok")
+      | none => (s, "reject")
+    | _, _, _ => (s, "bad-op")
+  | ["discard", i] =>
+    match parseNat? i with
+    | some i => ({ s with w := s.w.discard i }, "ok")
+    | none => (s, "bad-op")
+  | ["view", j] =>
+    match parseNat? j with
+    | some j => (s, showView (view s.w j))
+    | none => (s, "bad-op")
+  | ["alias"] => (s, showPairs (aliasPairs s.w))
+  | ["rules"] => (s, " ".intercalate (s.w.rules.map fun r =>
+      match r with | .fresh => "f" | .byRef => "r" | .resync n => s!"s{n}"))
   | _ => (s, "bad-op")
 
 end Heap
